@@ -327,6 +327,11 @@ def check_C12(run):
     v = V.run_tlc(run.scratch, "RWLockBuild", "RWLockBuild_defect", workers=4, timeout=600)
     if "Deadlock reached" not in v["out"]:
         raise V.Infra("vacuity check failed: the RWLockBuild model does not deadlock when the read lock is held across the recursive build")
+    # a built codec is immutable: the error a goroutine holds from a failed decode stays its own (SharedCodec)
+    run.model("SharedCodec")
+    v = V.run_tlc(run.scratch, "SharedCodec", "SharedCodec_defect", workers=4, timeout=600)
+    if "Invariant HeldIsOwn is violated" not in v["out"]:
+        raise V.Infra("vacuity check failed: the SharedCodec model keeps held errors stable although the failure is stored in the codec")
     race = run.harness(race=True)
     out, meta = run.drive("C12", extra_env={"VERIF_RACE_BIN": race})
     total, rejected, states, _ = V.judge(run.scratch, "Trace_Conc", out)
